@@ -46,6 +46,9 @@ def _h_cfgs():
                 out.append({"n": n, "shape": shape, "kinds": kinds, "weights": wk, "nan": False})
     out.append({"n": 1, "shape": (1, 1, 2), "kinds": ("static", "fixed", "gapped"), "weights": None, "nan": False})
     out.append({"n": 2, "shape": (1, 2), "kinds": ("static", "static"), "weights": "float64", "nan": True})
+    # right-open axes whose edge caches were filled by an earlier read (a value exactly on the last edge is outside)
+    out.append({"n": 1, "shape": (2, 1), "kinds": ("fixed", "static"), "weights": None, "nan": False, "ire": (False, False), "warm": True})
+    out.append({"n": 1, "shape": (1, 2), "kinds": ("static", "numpy"), "weights": "float64", "nan": False, "ire": (False, True), "warm": True})
     return out
 
 
@@ -63,7 +66,10 @@ class _h:
     def inputs(b):
         c = b.cfg
         d = len(c.shape)
-        bins = nd_binnings(b, c.shape, c.kinds)
+        bins = nd_binnings(b, c.shape, c.kinds, getattr(c, "ire", None))
+        if getattr(c, "warm", False):
+            for bn in bins:
+                b.touch(bn, "numpy_bins")
         kw = dict(data=b.array("d", (c.n, d), nan=c.nan), bins=bins)
         if c.weights:
             kw["weights"] = b.array("w", (c.n,), c.weights)      # weights of ANY sign: a negative cell sum is refused (below)
@@ -116,6 +122,48 @@ class _h:
     def _(a, old, result):
         return typename(result) == ("Histogram2D" if len(old.bins) == 2 else "HistogramND")
 
+
+
+@contract("physt._facade:h", props=["C02", "C17"], name="physt._facade:h[rows with infinite coordinates]")
+class _h_inf:
+    """a row with infinite coordinates (also of both signs) is an entry like any other: it lies in no cell and is counted as missed
+    with its weight -- it is not "missing data" and must not be dropped with the NaN rows.  Arithmetic on infinities is outside the
+    symbolic value model, so this contract is decided by the cross-check on the real code only (bounded stand-in)."""
+    bounded = True
+    bound_note = "h with infinite coordinates: decided by the cross-check on the real code only; 3 rows, 2 x 2 cells"
+    standin = True
+
+    def configs():
+        return [{"signs": (1.0, -1.0), "weights": True, "dropna": True}, {"signs": (-1.0, -1.0), "weights": False, "dropna": True},
+                {"signs": (1.0, -1.0), "weights": False, "dropna": False}]
+
+    def inputs(b):
+        c = b.cfg
+        bins = nd_binnings(b, (2, 2), ("fixed", "static"))
+        data = b.array("d", (3, 2))
+        for col, sg in enumerate(c.signs):
+            if isinstance(data, np.ndarray):
+                data[1, col] = sg * float("inf")
+            else:
+                data.set((1, col), sg * float("inf"))
+        kw = dict(data=data, bins=bins, dropna=c.dropna)
+        if c.weights:
+            kw["weights"] = b.array("w", (3,))
+            nonneg(b, kw["weights"])
+        return kw
+
+    @ensures("rows_with_infinite_coordinates_are_counted_as_missed")
+    def _(a, old, result):
+        rows = rows_of(old.data)
+        w = elems(old.weights) if hasattr(old, "weights") else [1] * len(rows)
+        tot = 0
+        for wt in w:
+            tot = tot + wt
+        inside = 0
+        for k, (r, wt) in enumerate(zip(rows, w)):
+            if k != 1:
+                inside = inside + If(Or(*[cell_pred(old.bins, cell, r) for cell in itertools.product(range(2), range(2))]), wt, 0)
+        return And(close(total(F(result)) + M(result)[0], tot), close(total(F(result)), inside))
 
 
 # ---------------------------------------------------------------------------------------------- find_bin / fill / fill_n
